@@ -126,7 +126,9 @@ Wide == RecordS("W", <<FieldS("a", PLong), FieldS("l", ArrayS(PLong)), FieldS("s
 Inner == RecordS("I", <<FieldS("x", ArrayS(PStr)), FieldS("y", Prim("double")), FieldS("k", Prim("boolean"))>>)
 Nested == RecordS("N", <<FieldS("i", Inner), FieldS("li", ArrayS(Inner)), FieldS("q", UnionS(<<PNull, Inner>>)), FieldS("t", Prim("float"))>>)
 Deep == RecordS("D", <<FieldS("mm", MapS(ArrayS(PLong))), FieldS("n", RecordS("N2", <<FieldS("u", UnionS(<<PStr, PNull>>)), FieldS("v", PLong)>>)), FieldS("e", Prim("int"))>>)
-ProjUniverse == IF Size = "proj" THEN {Wide, Nested} ELSE {Wide, Nested, Deep, ArrayS(Inner), MapS(Inner)}
+\* Avro names are case-sensitive: three different fields
+CaseRec == RecordS("C", <<FieldS("id", PLong), FieldS("ID", PStr), FieldS("Id", ArrayS(PLong)), FieldS("x", PLong)>>)
+ProjUniverse == IF Size = "proj" THEN {Wide, Nested, CaseRec} ELSE {Wide, Nested, CaseRec, Deep, ArrayS(Inner), MapS(Inner)}
 
 Level3 == {ArrayS(MapS(ArrayS(PLong))), MapS(UnionS(<<PNull, ArrayS(PStr)>>)), ArrayS(UnionS(<<RecordS("U", <<FieldS("q", PLong)>>), PNull>>)),
            MapS(RecordS("MR", <<FieldS("l", ArrayS(PLong)), FieldS("u", UnionS(<<PNull, PStr>>))>>)),
